@@ -17,7 +17,7 @@ from vf.checks.c12_admission import RejectOnHeader
 ACTIONS = ['open', 'open_rej', 'ws_open', 'poll', 'post_msg', 'post_two', 'post_close', 'post_bad7', 'post_bad0',
            'post_garbage', 'post_17', 'ws_connect', 'ws_probe', 'ws_upgrade', 'ws_badframe', 'ws_msg',
            'ws_closeframe', 'ws_peer_close', 'send', 'send_bin', 'disconnect_sid', 'tick',
-           'get_unknown', 'get_wrong_transport', 'put']
+           'get_unknown', 'get_wrong_transport', 'put', 'ws_drop']
 TIMEOUTISH = {'ping timeout', 'transport close', 'transport error'}
 
 
@@ -122,6 +122,14 @@ class Side:
             return True
         if a == 'disconnect_sid':
             w.call('disconnect', sid)
+            w.run()
+            return True
+        if a == 'ws_drop':
+            # an upgrade request whose socket is gone before the WebSocket handshake can be answered
+            if getattr(self, 'dropped', False) or sid in self.ws:
+                return False
+            self.dropped = True
+            w.ws(peer.WSQ + '&sid=' + sid, fail_accept=True)
             w.run()
             return True
         h = self.ws.get(sid)
